@@ -182,15 +182,31 @@ example : importsResolve (s "#internal/a/b") demoImports [s "browser"] = (s "/sr
 
 Each `example` evaluates both functions on a concrete input that violates exactly one conjunct. -/
 
-/-- D1 RUN (suspected esbuild defect). The first segment of a pattern match is not checked: `findInvalidSegment`
-skips everything up to the first "/" — right for targets (which begin with "./"), wrong for the part matched by "*".
-exports {"./*": "./dist/*.js"}, request "dep/../x": Node: ERR_INVALID_MODULE_SPECIFIER; esbuild: dep/x.js, i.e. a file
-outside "./dist/". Same for "dep/node_modules/x". (hypothesis: `subOK`, last conjunct) -/
-example : classify false (exportsResolve ['/'] (s "./../x") (.obj [(s "./*", .str (s "./dist/*.js"))]) []) = .resolved (s "/dist/../x.js")
+/-- D1 (FIXED in /repo, commit "reject a package subpath pattern match whose first segment is "..", "." or
+"node_modules" as Node does"). `findInvalidSegment` skips everything up to the first "/" — right for targets (which begin
+with "./"), wrong for the part matched by "*"; the call is now `findInvalidSegment("./" + subpath)`. Before the fix
+exports {"./*": "./dist/*.js"}, request "dep/../x" resolved to dep/x.js (outside "./dist/") where Node throws
+ERR_INVALID_MODULE_SPECIFIER. These inputs now MEET the hypotheses and both sides refuse them (regression examples). -/
+example : exportsOK (s "./../x") (.obj [(s "./*", .str (s "./dist/*.js"))]) = true
+    ∧ classify false (exportsResolve ['/'] (s "./../x") (.obj [(s "./*", .str (s "./dist/*.js"))]) []) = .error .invalidSpecifier
     ∧ packageExportsResolve true ['/'] (s "./../x") (.obj [(s "./*", .str (s "./dist/*.js"))]) [] = .error .invalidSpecifier
     ∧ packageExportsResolve false ['/'] (s "./../x") (.obj [(s "./*", .str (s "./dist/*.js"))]) [] = .error .invalidSpecifier := by decide
-example : classify false (exportsResolve ['/'] (s "./node_modules/x") (.obj [(s "./*", .str (s "./dist/*.js"))]) []) = .resolved (s "/dist/node_modules/x.js")
+example : exportsOK (s "./node_modules/x") (.obj [(s "./*", .str (s "./dist/*.js"))]) = true
+    ∧ classify false (exportsResolve ['/'] (s "./node_modules/x") (.obj [(s "./*", .str (s "./dist/*.js"))]) []) = .error .invalidSpecifier
     ∧ packageExportsResolve false ['/'] (s "./node_modules/x") (.obj [(s "./*", .str (s "./dist/*.js"))]) [] = .error .invalidSpecifier := by decide
+example : exportsOK (s "./.") (.obj [(s "./*", .str (s "./dist/*.js"))]) = true
+    ∧ classify false (exportsResolve ['/'] (s "./.") (.obj [(s "./*", .str (s "./dist/*.js"))]) []) = .error .invalidSpecifier
+    ∧ packageExportsResolve false ['/'] (s "./.") (.obj [(s "./*", .str (s "./dist/*.js"))]) [] = .error .invalidSpecifier := by decide
+
+/-- D1' RUN (what remains of D1 after the fix). In a pattern match, as in a target (D6, D7), Node compares the forbidden
+segments case-insensitively and percent-decoded, and the documentation also forbids empty segments (Node 20: DEP0166);
+esbuild compares literally and accepts empty segments. Request "dep/NODE_MODULES/x": Node: ERR_INVALID_MODULE_SPECIFIER,
+esbuild resolves; request "dep/a//b": documentation: Invalid Module Specifier, Node 20 and esbuild resolve. (`subOK`) -/
+example : classify false (exportsResolve ['/'] (s "./NODE_MODULES/x") (.obj [(s "./*", .str (s "./dist/*.js"))]) []) = .resolved (s "/dist/NODE_MODULES/x.js")
+    ∧ packageExportsResolve false ['/'] (s "./NODE_MODULES/x") (.obj [(s "./*", .str (s "./dist/*.js"))]) [] = .error .invalidSpecifier := by decide
+example : classify false (exportsResolve ['/'] (s "./a//b") (.obj [(s "./*", .str (s "./dist/*.js"))]) []) = .resolved (s "/dist/a//b.js")
+    ∧ packageExportsResolve true ['/'] (s "./a//b") (.obj [(s "./*", .str (s "./dist/*.js"))]) [] = .error .invalidSpecifier
+    ∧ packageExportsResolve false ['/'] (s "./a//b") (.obj [(s "./*", .str (s "./dist/*.js"))]) [] = .resolved (s "/dist/a//b.js") := by decide
 
 /-- D2 RUN. "*" may stand for the empty string in esbuild ("If matchKey starts with but is not equal to patternBase" is
 not tested): exports {"./b*": "./lib/*.js"}, request "dep/b": Node: not exported; esbuild: "./lib/.js". (`mapOK`, 5th conjunct) -/
